@@ -69,6 +69,7 @@ fn gen(prop: &str, tier: &str, seed: u64) -> Vec<String> {
             interval_ops::c13(&mut out, &box_f, &sc_f);
             let rel: Vec<f64> = vec![-2.0, -0.5, 0.0, 0.25, 1.0, 1.5, 4.0, 16.0];
             interval_ops::c13_rel(&mut out, &rel);
+            interval_ops::c13_unsigned(&mut out, &[0u8, 1, 2, 5, 9, 100, 200, 255], &[0u8, 1, 3, 100, 255]);
         }
         "C19" => {
             let ch: Vec<f64> = vec![-1.0, 0.0, 1.0, 1.0 + f64::EPSILON, 1.0 + 1e-9, 1.5, 1e10, f64::INFINITY];
@@ -76,6 +77,11 @@ fn gen(prop: &str, tier: &str, seed: u64) -> Vec<String> {
             interval_ops::c19_display(&mut out, &ci);
             interval_ops::c19_display(&mut out, &cs);
             interval_ops::c19_display(&mut out, &[-1.5f64, 0.0, 2.0, 1e21, 1e-7, f64::INFINITY]);
+            // long renderings: huge and tiny magnitudes (`{}` never uses an exponent), many digits, long text
+            interval_ops::c19_display(&mut out, &[-f64::MAX, -1e100, -1.2345678901234567e-14, 5e-324, f64::MIN_POSITIVE, 1.2345678901234567e-14, 1e30, 1e59, f64::MAX]);
+            let long_a: &'static str = Box::leak("a".repeat(70).into_boxed_str());
+            let long_b: &'static str = Box::leak(format!("{}b", "a".repeat(150)).into_boxed_str());
+            interval_ops::c19_display(&mut out, &["", "a", long_a, long_b]);
         }
         "C02" => prop_ops::c02(&mut out, &mut rng, tier),
         "C17" => prop_ops::c17(&mut out, &mut rng, tier),
